@@ -1,11 +1,11 @@
 package props
 
 import (
-	"reflect"
-	"sync"
 	"encoding/json"
 	"fmt"
+	"reflect"
 	"sort"
+	"sync"
 
 	gpb "github.com/openconfig/gnmi/proto/gnmi"
 	"github.com/openconfig/ygot/ytypes"
